@@ -65,6 +65,24 @@ func modePipe(n int, long bool) {
 		// deadlines that fall around the arrival of the reply (0..25 ms): the cancellation races the delivery
 		runWorkers(t, 32, n/32+1, 300*time.Microsecond, 26*time.Millisecond, false)
 		t.Close()
+		// staged race: the write of a query returns only after its reply has been read and delivered and the
+		// caller's context has been cancelled - the caller's select finds the reply and the cancellation ready
+		// at the same time. Whichever it takes, a reply it returns carries the caller's ID.
+		tr.Emit("seg", "name", "pipe-staged-"+netw)
+		var curCancel atomic.Value
+		ctxHook = func(c context.CancelFunc) { curCancel.Store(c) }
+		st := transport.NewPipelineTransport(transport.PipelineOpts{
+			DialContext: func(ctx context.Context) (net.Conn, error) {
+				c, err := dialer(netw, srv.addr)(ctx)
+				if err != nil {
+					return nil, err
+				}
+				return &stagedConn{Conn: c, cancel: &curCancel, got: make(chan struct{}, 16)}, nil
+			}, IsTCP: tcp, MaxConcurrentQuery: 16, IdleTimeout: 2 * time.Second,
+		})
+		runWorkers(st, 1, 60, 400*time.Millisecond, 400*time.Millisecond, false)
+		ctxHook = nil
+		st.Close()
 	}
 	if long {
 		// more than 65536 exchanges on ONE connection object, the first one kept in flight
@@ -100,6 +118,40 @@ func modePipe(n int, long bool) {
 		t.Close()
 		onlyEvents = nil
 	}
+}
+
+// stagedConn: see the staged race in modePipe
+type stagedConn struct {
+	net.Conn
+	cancel *atomic.Value
+	got    chan struct{}
+}
+
+func (c *stagedConn) Read(p []byte) (int, error) {
+	n, err := c.Conn.Read(p)
+	if n > 0 {
+		select {
+		case c.got <- struct{}{}:
+		default:
+		}
+	}
+	return n, err
+}
+
+func (c *stagedConn) Write(p []byte) (int, error) {
+	for len(c.got) > 0 { // replies that belong to earlier queries
+		<-c.got
+	}
+	n, err := c.Conn.Write(p)
+	select {
+	case <-c.got:
+		time.Sleep(400 * time.Microsecond) // the read loop decodes the reply and hands it to the waiting exchange
+		if f, ok := c.cancel.Load().(context.CancelFunc); ok {
+			f()
+		}
+	case <-time.After(60 * time.Millisecond): // this query gets no reply (the server's script)
+	}
+	return n, err
 }
 
 // C06: one-at-a-time connections; callers cancel around the reply time; idle timers race
